@@ -185,6 +185,23 @@ CHECKS["C01"] = dict(
     ],
 )
 
+COPY = MOD + "/copy"
+
+CHECKS["C13"] = dict(
+    level_text="The real copy.Copy (rootPath/continuity RootPath, MkdirAll, copier.copy, copyDirectory, copyFileInfo, copyFile/copy_file_range loop, copyDevice, hard-link map, notifier) is executed symbolically on the model file system for every source tree and option set inside the bounds; the solver shows the destination equals the source (or carries the requested owner / octal or symbolic mode / timestamp), hard-link groups are preserved, and the notifier fires exactly once per non-directory with its destination path.",
+    level_note="Bounds: source tree t/{f, d/, d/g, h(hard link), l(symlink), p(fifo/char device)} with symbolic permission+special bits, uid, gid, files of 0..1 symbolic bytes, mtimes from 2 values; options chown (symbolic ids), octal mode (symbolic 12 bits), utime, symbolic modes a+X and go-w. Because the model's Lchown clears setuid/setgid like Linux, a chmod-before-chown ordering would be visible in the final state. xattrs, follow-links on, and other symbolic mode strings are outside. " + FS_TRUST + BASE_TRUST,
+    assumptions=["copy_file_range is modelled as copying everything asked for (fall-back variants in the thorough tier)", "xattr list of every node is empty"],
+    obligations=[
+        ob("VH_C13_tree", dict(S=15, MAXB=1, OPT=0), pkg=COPY, covers=["done"], bounds="whole universe, no options"),
+        ob("VH_C13_tree", dict(S=3, MAXB=1, OPT=7), pkg=COPY, covers=["done"], bounds="{f, d, d/g, h}, chown+mode+utime"),
+        ob("VH_C13_tree", dict(S=12, MAXB=1, OPT=3), pkg=COPY, covers=["done"], bounds="{f, l, p}, chown+mode"),
+        ob("VH_C13_tree", dict(S=1, MAXB=0, OPT=8), pkg=COPY, covers=["done"], bounds="{f, d, d/g}, symbolic modes a+X / go-w"),
+        ob("VH_C13_tree", dict(S=15, MAXB=2, OPT=0), T, pkg=COPY, covers=["done"], bounds="whole universe, files <=2 bytes"),
+        ob("VH_C13_tree", dict(S=15, MAXB=1, OPT=7), T, pkg=COPY, covers=["done"], bounds="whole universe, chown+mode+utime"),
+        ob("VH_C13_tree", dict(S=13, MAXB=0, OPT=9), T, pkg=COPY, covers=["done"], bounds="{f, d, d/g, l, p}, chown + symbolic modes"),
+    ],
+)
+
 NOT_APPLICABLE = {
     "C08": "quantifies over schedules and includes data-race freedom and non-overlap of stream calls; the hand-written SSA executor runs goroutines under one cooperative schedule and cannot enumerate interleavings or observe races, and no Go engine that can is installed (DESIGN.md §7)",
 }
